@@ -74,6 +74,11 @@ var literalCases = map[string]struct {
 		c: Case{Program: "count() by x:=bucket(x, 3) | fork (=> sort this => pass) | join on x=x c:=count", Meta: prog.Meta{Ordered: false, Deterministic: true}, Source: "grammar",
 			Input: gen.SeqFromZSON(`{x:null} {k:1}`), SortKey: "x", Reader: "plain", Frame: 100000, Threads: 1, Batch: 100},
 	},
+	"known-C07-bufferfilter-null-equals-false": {
+		sig: "C07/zng-bufferfilter/null-equals-false-literal", expect: "known",
+		c: Case{Program: "where j==false", Meta: prog.Meta{Ordered: true, Deterministic: true}, Source: "grammar",
+			Input: gen.SeqFromZSON(`{j:null(bool),a:1} {j:true,a:1}`), Reader: "zng", Frame: 1, Threads: 1, Batch: 100},
+	},
 	"known-C07-sortkey-join-desc-nulls": {
 		sig: "C07/sortkey-join/desc-null-keys", expect: "known",
 		c: Case{Program: "fork (=> pass => put a:=a) | join on a=a b2:=b", Meta: prog.Meta{Ordered: false, Deterministic: true}, Source: "grammar",
